@@ -63,6 +63,18 @@ pub fn make_ping() -> std::io::Result<(Ping, PingSource)> {
 #[inline]
 fn send_ping(fd: BorrowedFd<'_>, count: u64) -> std::io::Result<()> {
     assert!(count > 0);
+    #[cfg(feature = "verif_hooks")]
+    let _verif_guard = if count == INCREMENT_CLOSE {
+        crate::verif::yield_around(
+            crate::verif::Site::CLOSE_WRITE_PRE,
+            crate::verif::Site::CLOSE_WRITE_POST,
+        )
+    } else {
+        crate::verif::yield_around(
+            crate::verif::Site::PING_WRITE_PRE,
+            crate::verif::Site::PING_WRITE_POST,
+        )
+    };
     match write(fd, &count.to_ne_bytes()) {
         // The write succeeded, the ping will wake up the loop.
         Ok(_) => Ok(()),
@@ -81,6 +93,11 @@ fn drain_ping(fd: BorrowedFd<'_>) -> std::io::Result<u64> {
     // The eventfd counter is effectively a u64.
     const NBYTES: usize = 8;
     let mut buf = [0u8; NBYTES];
+    #[cfg(feature = "verif_hooks")]
+    let _verif_guard = crate::verif::yield_around(
+        crate::verif::Site::PING_DRAIN_PRE,
+        crate::verif::Site::PING_DRAIN_POST,
+    );
 
     match read(fd, &mut buf) {
         // Reading from an eventfd should only ever produce 8 bytes. No looping
